@@ -463,7 +463,22 @@ pub async fn run_case(fx: &Fx, c: &Case, base_tag: u32) -> Result<(bool, serde_j
             }
             sent[si].push((oi, p.clone()));
             if slow {
-                // vanish while the reply is in flight
+                // vanish while the (slow) reply is in flight - but only once the origin has the datagram: a client
+                // that disappears before its datagram was relayed cannot expect it to be delivered
+                let mut arrived = false;
+                for _ in 0..200 {
+                    if fx.origins[oi].received.lock().unwrap().iter().any(|(_, q)| *q == p) {
+                        arrived = true;
+                        break;
+                    }
+                    tokio::time::sleep(Duration::from_millis(20)).await;
+                }
+                if !arrived {
+                    return Err(Failure::new(
+                        format!("datagram-lost:{}:{}", path, if round == 0 { "first-of-session" } else if p.len() > 1200 { "large" } else { "later" }),
+                        format!("{}: datagram #{} of the session ({} bytes to origin {}) did not reach the origin within 4 s (the client was still there)", path, round, p.len(), oi),
+                    ));
+                }
                 conns[si] = None;
                 vanished[si] = true;
                 continue;
